@@ -10,7 +10,7 @@ Line protocol of streams `C02`, `C08`, `C09` (tile sources and pipelines).
          boxes `z:a,b,c,d` joined by `/` (or `-`), `tiles` = `x,y,z,id` joined by `_` (or `-`); optional 5th field kind (harness only), optional 6th
          field = coordinates `x,y,z` joined by `_` whose lookup is `Err` (fault injection).
          A leaf serves its tiles by lookup and the trait's default stream.
-* `pipe` reverse polish, tokens joined by `,`: `L<i>` leaf; `Z<min>:<max>` filter_zoom (`n` =
+* `pipe` reverse polish, tokens joined by `,`: `L<i>` leaf; `D<fmt>[f]` from_debug (format code, `f` = fast); `Z<min>:<max>` filter_zoom (`n` =
          absent, `x…` = not a `u8`); `B<w>:<s>:<e>:<n>` filter_bbox (f64 bit patterns; `x` = not
          four numbers); `O<k>` / `M<k>` overlay / merge of the top `k` pipelines; `U` update.
 * `op`   `S` args = boxes joined by `;` → per box the stream sorted by coordinate, joined by `|`
@@ -30,6 +30,7 @@ def ops : Ops Pay where
   decomp := fun _ p => (p.1, 0)
   merge := fun l => (l.flatMap (·.1), 0)
   update := fun _ p => (p.1, 0)
+  debug := fun _ _ => ([], 0)      -- debug tiles carry no id feature; their bytes are compared by the oracle
 
 def pyrOfLevels (l : List BBox) : Pyramid :=
   l.foldl (fun p b => if b.level < p.length then p.set b.level b else p) Pyramid.newEmpty
@@ -91,6 +92,7 @@ def stepTok (st : List Pipe) (tok : String) : Option (List Pipe) :=
   let rest := (tok.drop 1).toString
   match tok.front with
   | 'L' => rest.toNat?.map fun i => Pipe.leaf i :: st
+  | 'D' => (rest.takeWhile Char.isDigit).toString.toNat?.map fun f => Pipe.debug f :: st   -- `D<fmt>[f]`
   | 'U' => match st with
     | p :: st => some (Pipe.update p :: st)
     | [] => none
